@@ -5,10 +5,13 @@ From Elys Require Import Base.Res Models.Vesting.
 Import ListNotations.
 Open Scope Z_scope.
 
-Record obs := mkO { o_kind : Z; o_acct : nat; o_eden : Z; o_elys : Z; o_vs : list (Z * Z * Z * Z) }.
+(* o_usdc: the account's wallet of the liquid denom; o_mod: the commitment module's balance of it;
+   an entry is (total, claimed, start, num, denom tag: 0 = uelys, 1 = the liquid denom) *)
+Record obs := mkO { o_kind : Z; o_acct : nat; o_eden : Z; o_elys : Z; o_usdc : Z; o_mod : Z;
+                    o_vs : list (Z * Z * Z * Z * Z) }.
 
-Definition proj_vs (a : acct) : list (Z * Z * Z * Z) :=
-  map (fun v => (v_total v, v_claimed v, v_start v, v_num v)) (a_vs a).
+Definition proj_vs (a : acct) : list (Z * Z * Z * Z * Z) :=
+  map (fun v => (v_total v, v_claimed v, v_start v, v_num v, v_den v)) (a_vs a).
 
 Fixpoint list_eqb {A} (eqb : A -> A -> bool) (a b : list A) : bool :=
   match a, b with
@@ -17,17 +20,17 @@ Fixpoint list_eqb {A} (eqb : A -> A -> bool) (a b : list A) : bool :=
   | _, _ => false
   end.
 
-Definition q_eqb (a b : Z * Z * Z * Z) : bool :=
-  let '(a1, a2, a3, a4) := a in let '(b1, b2, b3, b4) := b in
-  (a1 =? b1) && (a2 =? b2) && (a3 =? b3) && (a4 =? b4).
+Definition q_eqb (a b : Z * Z * Z * Z * Z) : bool :=
+  let '(a1, a2, a3, a4, a5) := a in let '(b1, b2, b3, b4, b5) := b in
+  (a1 =? b1) && (a2 =? b2) && (a3 =? b3) && (a4 =? b4) && (a5 =? b5).
 
 Definition acct_matches (a : acct) (o : obs) : bool :=
-  (a_eden a =? o_eden o) && (a_elys a =? o_elys o) && list_eqb q_eqb (proj_vs a) (o_vs o).
+  (a_eden a =? o_eden o) && (a_elys a =? o_elys o) && (a_usdc a =? o_usdc o) && list_eqb q_eqb (proj_vs a) (o_vs o).
 
 Definition step_matches (clamp : bool) (s : state) (o : op) (e : obs) : state * bool :=
   let r := step_gen clamp s o in
   let s' := match r with Ok s' => s' | _ => s end in
-  (s', (kind r =? o_kind e) && acct_matches (get_acct s' (o_acct e)) e).
+  (s', (kind r =? o_kind e) && acct_matches (get_acct s' (o_acct e)) e && (s_mod s' =? o_mod e)).
 
 Fixpoint replay (clamp : bool) (s : state) (l : list (op * obs)) (idx : Z) : list Z :=
   match l with
@@ -37,7 +40,7 @@ Fixpoint replay (clamp : bool) (s : state) (l : list (op * obs)) (idx : Z) : lis
       if ok then replay clamp s' r (idx + 1) else [idx]   (* first diverging step *)
   end.
 
-Record vcase := mkC { c_id : Z; c_p : params; c_init : list (Z * Z); c_steps : list (op * obs) }.
+Record vcase := mkC { c_id : Z; c_p : params; c_init : list (Z * Z * Z); c_steps : list (op * obs) }.
 
 Definition mismatches (clamp : bool) (cs : list vcase) : list (Z * Z) :=
   flat_map (fun c => map (fun i => (c_id c, i)) (replay clamp (init_state (c_p c) (c_init c)) (c_steps c) 0)) cs.
